@@ -16,7 +16,7 @@ func (e *Engine) newFnCtx(fn *ssa.Function, fc *FuncContract) *FnCtx {
 	return &FnCtx{eng: e, fn: fn, fc: fc, name: fc.Key, vals: map[ssa.Value]Val{}, edges: map[edge]edgeState{},
 		loops: map[*ssa.BasicBlock]*loopInfo{}, params: map[string]Val{}, ghosts: map[string]Val{},
 		anchors: map[string]int{}, declared: map[string]bool{}, abstracted: map[string]int{}, assumptions: map[string]bool{},
-		callOrd: map[string]int{}, closureOf: map[*ssa.Alloc]*ssa.MakeClosure{}}
+		callOrd: map[string]int{}, closureOf: map[*ssa.Alloc]*ssa.MakeClosure{}, callAsserts: map[int]int{}}
 }
 
 // verifyFunc generates all obligations of fn.
@@ -56,6 +56,14 @@ func (c *FnCtx) run() {
 		// captured variable: pointer to a cell owned by the enclosing function
 		v := c.freshVal(st, fv.Type(), "fv."+fv.Name())
 		c.vals[fv] = v
+		if p, ok := v.(VPtr); ok {
+			if c.fvs == nil {
+				c.fvs = map[string]VPtr{}
+			}
+			c.fvs[fv.Name()] = p
+			// the cell exists: the enclosing function allocated it
+			c.assume(st, lt("0", p.Ref))
+		}
 	}
 	c.entry = st.clone()
 	// result names
@@ -136,7 +144,7 @@ func (c *FnCtx) run() {
 		}
 	}
 	for _, cl := range c.fc.Clauses {
-		if cl.Kind == "assert" || cl.Kind == "assume" || cl.Kind == "ghostat" {
+		if cl.Kind == "assert" || cl.Kind == "assume" || cl.Kind == "ghostat" || cl.Kind == "cover" {
 			c.ghostAt = append(c.ghostAt, ghostClause{cl: cl})
 		}
 		if cl.Kind == "ghostat" {
@@ -158,6 +166,11 @@ func (c *FnCtx) run() {
 		if !g.done {
 			what := g.cl.Kind
 			panic(specErr{fmt.Sprintf("%s clause anchored at %q (occurrence %d) did not find that source line on any reachable path — the contract no longer maps onto the code", what, g.cl.At, g.cl.AtOrd)})
+		}
+	}
+	for i, cl := range c.fc.Clauses {
+		if cl.Kind == "assertcall" && c.callAsserts[i] == 0 {
+			panic(specErr{fmt.Sprintf("assert atcall %q: no such call on any reachable path — the contract no longer maps onto the code", cl.At)})
 		}
 	}
 	for _, cl := range c.fc.Clauses {
@@ -785,6 +798,11 @@ func (c *FnCtx) ghostAsserts(st *State, in ssa.Instruction) {
 		if name == "" {
 			name = g.cl.At
 		}
+		if g.cl.Kind == "cover" {
+			// reachability with a non-degenerate state: must be satisfiable (guards against vacuous assumptions)
+			c.vacuity = append(c.vacuity, &vacuityCheck{what: "cover " + name + ": " + g.cl.Text, cmdN: len(c.cmds), reach: and(st.reach, cond)})
+			continue
+		}
 		if g.cl.Kind == "assert" {
 			c.oblige(st, "ghost", name, pos, cond, "ghost assertion: "+g.cl.Text, g.cl.Tags)
 		} else {
@@ -851,6 +869,20 @@ func (c *FnCtx) execInstr(st *State, b *ssa.BasicBlock, in ssa.Instruction) bool
 		}
 		c.vals[in] = c.mergeVals(vs, conds, "phi")
 	case *ssa.Call:
+		if in.Pos().IsValid() {
+			for i := range c.fc.Clauses {
+				cl := &c.fc.Clauses[i]
+				if cl.Kind != "assertcall" || !strings.HasPrefix(c.anchor(in), cl.At) {
+					continue
+				}
+				c.callAsserts[i]++
+				name := cl.Name
+				if name == "" {
+					name = cl.At
+				}
+				c.obligeAlways(st, "ghost", fmt.Sprintf("%s#%d", name, c.callAsserts[i]), in.Pos(), c.loopEnv(st).evalBool(cl.E), "ghost assertion before the call: "+cl.Text, cl.Tags)
+			}
+		}
 		if len(c.fc.Counters) > 0 && in.Pos().IsValid() {
 			txt := c.anchor(in)
 			for _, ct := range c.fc.Counters {
@@ -915,7 +947,50 @@ func (c *FnCtx) execInstr(st *State, b *ssa.BasicBlock, in ssa.Instruction) bool
 	return false
 }
 
+// localClosure resolves the function value of a call to a closure made in the same
+// function: called directly, or through a local variable that is assigned exactly once
+// (the closure) and otherwise only loaded.
+func localClosure(v ssa.Value) *ssa.MakeClosure {
+	switch v := v.(type) {
+	case *ssa.MakeClosure:
+		return v
+	case *ssa.UnOp:
+		if v.Op != token.MUL {
+			return nil
+		}
+		a, ok := v.X.(*ssa.Alloc)
+		if !ok || a.Referrers() == nil {
+			return nil
+		}
+		var mc *ssa.MakeClosure
+		for _, r := range *a.Referrers() {
+			switch r := r.(type) {
+			case *ssa.Store:
+				m, ok := r.Val.(*ssa.MakeClosure)
+				if r.Addr != a || !ok || mc != nil {
+					return nil
+				}
+				mc = m
+			case *ssa.UnOp:
+				if r.Op != token.MUL {
+					return nil
+				}
+			case *ssa.DebugRef:
+			default:
+				return nil
+			}
+		}
+		return mc
+	}
+	return nil
+}
+
 func callName(cc *ssa.CallCommon) string {
+	if !cc.IsInvoke() {
+		if mc := localClosure(cc.Value); mc != nil {
+			return funcKey(mc.Fn.(*ssa.Function))
+		}
+	}
 	if cc.IsInvoke() {
 		return "(" + types.TypeString(cc.Value.Type(), shortQual) + ")." + cc.Method.Name()
 	}
